@@ -11,6 +11,7 @@
   allowed-prefix test) that is not banned and scored at least 50, and no other eligible
   candidate scored higher.
 -/
+import Distill.Props.LinkScoreProps
 import Distill.Props.AbsURLProps
 import Distill.Proofs.Pagination
 import Distill.Proofs.PageGroups
